@@ -35,17 +35,17 @@ def one(*fns):
 
 
 SK_LOOP = both(sk.rule_sk_parse, sk.rule_sk_eof, sk.rule_sk_nr, sk.rule_sk_nf, sk.rule_sk_vars, sk.rule_sk_where)
-SK_SELECT = both(sk.rule_sk_emit, sk.rule_sk_unnest, sk.rule_sk_unnest_pos, sk.rule_sk_join, sk.rule_sk_paren)
+SK_SELECT = both(sk.rule_sk_emit, sk.rule_sk_unnest, sk.rule_sk_unnest_pos, sk.rule_sk_join, sk.rule_sk_paren, sk.rule_sk_relay)
 SK_UPDATE = both(sk.rule_sk_copy, sk.rule_sk_upd, sk.rule_sk_nu, sk.rule_sk_paren)
 SK_ALL = SK_LOOP + SK_SELECT + SK_UPDATE + both(sk.rule_sk_stop, sk.rule_sk_err, sk.rule_sk_alias) + py(sk.rule_sk_scope)
 WR_ALL = both(wr.rule_wr_ret, wr.rule_wr_prop, wr.rule_wr_fin, wr.rule_wr_top, wr.rule_wr_uniq, wr.rule_wr_ucnt, wr.rule_wr_sort, wr.rule_wr_aggw)
 CONF_ALL = both(conf.rule_pa_conf, conf.rule_wr_order, conf.rule_pa_excl, conf.rule_pa_hdrcall, conf.rule_hd_arity, conf.rule_pa_with, conf.rule_rs_proto)
-AG_ALL = both(ag.rule_ag_route, ag.rule_ag_init, ag.rule_ag_stage, ag.rule_ag_const, ag.rule_ag_sib, ag.rule_ag_starcount, ag.rule_ag_keyord, agfold.rule_ag_fold, agfold.rule_ag_median) + one(ag.rule_ag_mad, agfold.rule_ag_parse)
+AG_ALL = both(ag.rule_ag_route, ag.rule_ag_init, ag.rule_ag_stage, ag.rule_ag_const, ag.rule_ag_sib, ag.rule_ag_starcount, ag.rule_ag_keyord, agfold.rule_ag_fold, agfold.rule_ag_median) + one(ag.rule_ag_mad, agfold.rule_ag_parse, agfold.rule_ag_numparse)
 JN_ALL = both(ag.rule_jn_dispatch, ag.rule_jn_joiners, ag.rule_jn_build, ag.rule_pa_join)
 HD_ALL = both(hd.rule_hd_table, hd.rule_hd_startwin, hd.rule_hd_except, hd.rule_hd_update, hd.rule_hd_emit, conf.rule_hd_countpos) + one(hd.rule_hd_shapes)
 VA_ALL = both(hd.rule_va_index, hd.rule_va_enum, hd.rule_va_esc) + one(hd.rule_va_record)
 PA_ALL = both(pa.rule_pa_case, pa.rule_pa_withcase, pa.rule_pa_groups, pa.rule_pa_litorder, pa.rule_pa_cleanorder, pa.rule_pa_lit, pa.rule_pa_litflow, pa.rule_pa_subst, pa.rule_pa_litcheck, pa.rule_pa_top, pa.rule_pa_zero, pa.rule_pa_asc, pa.rule_pa_redund)
-CS_ALL = both(cs.rule_rx_field, cs.rule_rx_newline, cs.rule_rx_ws, cs.rule_cs_trigger, cs.rule_cs_accept, cs.rule_cs_width, cs.rule_cs_extws, cs.rule_cs_dispatch, cs.rule_cs_writer)
+CS_ALL = both(cs.rule_rx_field, cs.rule_rx_newline, cs.rule_rx_ws, cs.rule_cs_trigger, cs.rule_cs_accept, cs.rule_cs_width, cs.rule_cs_extws, cs.rule_cs_dispatch, cs.rule_cs_writer, cs.rule_cs_reader)
 XP_ALL = one(xp.rule_rx_xp, xp.rule_xp_keywords, xp.rule_xp_roles, xp.rule_xp_messages, xp.rule_xp_verdicts)
 OW_ALL = both(ow.rule_ow_mut, ow.rule_ow_fresh, ow.rule_ow_selwrap, ow.rule_ow_open, ow.rule_ow_fs) + one(ow.rule_ow_sql, ow.rule_ow_conn, ow.rule_ow_pandas)
 RD_PY = one(rd.rule_rd_mustflow, rd.rule_rd_partition, rd.rule_rd_crla) + py(rd.rule_rd_decode, rd.rule_rd_eof, rd.rule_rd_bom, rd.rule_rd_comment, rd.rule_rd_rfc, rd.rule_rd_hdrflag, rd.rule_rd_replay, cs.rule_rx_newline)
@@ -53,8 +53,8 @@ RD_JS = one(rd.rule_rd_jschunk) + js(rd.rule_rd_decode, rd.rule_rd_eof, rd.rule_
 GS_ALL = one(gs.rule_gs_modstate, gs.rule_gs_classattr, gs.rule_gs_defaults, gs.rule_gs_ctxescape, gs.rule_gs_exec)
 LK_ALL = both(lk.rule_lk_taint, lk.rule_lk_map, lk.rule_lk_anchor, lk.rule_lk_part, lk.rule_lk_cache) + one(lk.rule_rx_jsesc)
 RS_ALL = one(rs.rule_rs_close, rs.rule_rs_epipe, rs.rule_rs_decerr)
-FL_ALL = both(rs.rule_fl_flags, rs.rule_fl_fields, rs.rule_fl_none_complete)
-IF_ALL = one(ifc.rule_if_layer, ifc.rule_if_conf, ifc.rule_if_entry, ifc.rule_if_args, ifc.rule_if_joinopts, ifc.rule_if_df, ifc.rule_cl_stdout, ifc.rule_cl_exit, ifc.rule_cl_mode, ifc.rule_cl_presence) + both(ifc.rule_if_regfresh, hd.rule_hd_emit)
+FL_ALL = both(rs.rule_fl_flags, rs.rule_fl_fields, rs.rule_fl_none_complete, rs.rule_fl_collect)
+IF_ALL = one(ifc.rule_if_layer, ifc.rule_if_conf, ifc.rule_if_entry, ifc.rule_if_args, ifc.rule_if_joinopts, ifc.rule_if_df, ifc.rule_cl_stdout, ifc.rule_cl_exit, ifc.rule_cl_mode, ifc.rule_cl_presence) + both(ifc.rule_if_regfresh, hd.rule_hd_emit, ifc.rule_if_varmap)
 
 
 def only(rules, port):
@@ -70,13 +70,13 @@ def only(rules, port):
 
 PROPS = {
     'C01': {
-        'rules': SK_LOOP + SK_SELECT + both(sk.rule_sk_stop, sk.rule_sk_err) + both(hd.rule_va_index, hd.rule_hd_startwin, hd.rule_hd_except, ow.rule_ow_fresh, ow.rule_ow_selwrap, pa.rule_pa_litflow, pa.rule_pa_subst) + both(pa.rule_pa_litorder),
+        'rules': SK_LOOP + SK_SELECT + both(sk.rule_sk_stop, sk.rule_sk_err) + both(hd.rule_va_index, hd.rule_hd_startwin, hd.rule_hd_except, ow.rule_ow_fresh, ow.rule_ow_selwrap, pa.rule_pa_litflow, pa.rule_pa_subst) + both(pa.rule_pa_litorder) + one(ag.rule_ag_mad),
         'thorough_rules': both(sk.rule_sk_alias, wr.rule_wr_ret, wr.rule_wr_prop) + one(xp.rule_xp_verdicts),
-        'explanation': 'Decides the loop structure of every generated SELECT program (all 16 select configurations per port, composed by partially evaluating the code generator from its own source): end-of-input test before NR, NR/NF definitions, variable initialisation dominating every user fragment and placed inside the join-match loop, WHERE control dependence, exactly one emission per evaluation selected by (aggregation stage, UNNEST), UNNEST reset on every cycle through the select fragment, join pairing order; plus aN/a[N] -> index N-1 with the safe_get guard, star/EXCEPT expansion as fresh lists. Text handling on the way into the program: structural matchers receive literal-free text (the extracted literal list counts as literal content), and every template-interpreting substitution (String.replace / re.sub) has a constant or functional replacement operand, so user text is never re-interpreted.',
+        'explanation': 'Decides the loop structure of every generated SELECT program (all 16 select configurations per port, composed by partially evaluating the code generator from its own source): end-of-input test before NR, NR/NF definitions, variable initialisation dominating every user fragment and placed inside the join-match loop, WHERE control dependence, exactly one emission per evaluation selected by (aggregation stage, UNNEST), UNNEST reset on every cycle through the select fragment, join pairing order; plus aN/a[N] -> index N-1 with the safe_get guard, star/EXCEPT expansion as fresh lists. Text handling on the way into the program: structural matchers receive literal-free text (the extracted literal list counts as literal content), and every template-interpreting substitution (String.replace / re.sub) has a constant or functional replacement operand, so user text is never re-interpreted. max/min used as ordinary functions are told from aggregates by the argument count/type test (AG-MAD).',
         'not_decided': 'that the regex-based rewriting of an arbitrary select list preserves its meaning (comma structure inside nested brackets, AS inside expressions); values computed by user expressions.',
     },
     'C02': {
-        'rules': WR_ALL + both(conf.rule_pa_conf, conf.rule_wr_order, conf.rule_pa_excl) + both(sk.rule_sk_stop, sk.rule_sk_unnest_pos, pa.rule_pa_top, pa.rule_pa_zero, pa.rule_pa_asc),
+        'rules': WR_ALL + both(conf.rule_pa_conf, conf.rule_wr_order, conf.rule_pa_excl) + both(sk.rule_sk_stop, sk.rule_sk_relay, sk.rule_sk_unnest_pos, pa.rule_pa_top, pa.rule_pa_zero, pa.rule_pa_asc),
         'thorough_rules': both(sk.rule_sk_emit, conf.rule_rs_proto) + one(xp.rule_xp_verdicts, xp.rule_xp_roles),
         'explanation': 'Decides the composition sort -> dedup -> truncate on the exhaustive configuration table of the shallow parser (1024 keyword configurations): wrapping order Top, Uniq|UniqCount, Sorted and presence iff keyword; per writer: stable ascending sort on the key only with DESC = reversal of that result, first-occurrence dedup on the immutable record image, insertion-ordered multiplicity map with count prefix, TOP refusing iff NW >= N and counting forwarded records; termination: every write() returns a boolean, every downstream verdict is propagated, a false verdict sets stop_flag, the loop tests it and inner loops break. The sort dominates the emission (it cannot be skipped by a test that does not use the ORDER BY comparator) and every arrival is buffered exactly once.',
         'not_decided': 'that user sort keys are mutually comparable; stability of sorted()/Array.sort (trusted language semantics).',
@@ -84,7 +84,7 @@ PROPS = {
     'C03': {
         'rules': AG_ALL + both(wr.rule_wr_aggw, sk.rule_sk_alias, sk.rule_sk_emit, conf.rule_pa_excl),
         'thorough_rules': both(sk.rule_sk_where, wr.rule_wr_prop) + one(xp.rule_xp_roles),
-        'explanation': 'Decides routing and grouping: each aggregate entry point (and every alias spelling bound in the generated prologue) registers the aggregator class of the same name, COUNT passes 1, token ids equal registration order, stage 1 installs one aggregator or constant-group verifier per output column and feeds the first record, stage 2 increments aggregator i with value i, group keys are collected in a set and emitted in ascending component-wise order, one get_final per column; constant-group verifier raises on a differing value and tests absence by membership; lower-case min/max/sum dispatch; COUNT(*) rewrite; ORDER BY/UPDATE/DISTINCT rejected. rbql-js parse_number hands back only values tested with isNaN on that path.',
+        'explanation': 'Decides routing and grouping: each aggregate entry point (and every alias spelling bound in the generated prologue) registers the aggregator class of the same name, COUNT passes 1, token ids equal registration order, stage 1 installs one aggregator or constant-group verifier per output column and feeds the first record, stage 2 increments aggregator i with value i, group keys are collected in a set and emitted in ascending component-wise order, one get_final per column; constant-group verifier raises on a differing value and tests absence by membership; lower-case min/max/sum dispatch; COUNT(*) rewrite; ORDER BY/UPDATE/DISTINCT rejected. rbql-js parse_number hands back only values tested with isNaN on that path. Python NumHandler.parse makes ints from the text itself (never via float, which is exact only up to 2**53) and reaches float(text) only behind the int attempt or the is_int flag.',
         'not_decided': 'floating-point rounding of the accumulators and the order of additions (AG-FOLD decides the fold expressions up to algebraic identity over the rationals, AG-MEDIAN the even/odd selection; bit-exact results are statements about runtime values).',
     },
     'C04': {
@@ -95,14 +95,14 @@ PROPS = {
     },
     'C05': {
         'rules': SK_LOOP + SK_UPDATE + both(sk.rule_sk_join, sk.rule_sk_err, sk.rule_sk_stop, hd.rule_va_index, ow.rule_ow_mut, pa.rule_pa_litflow, pa.rule_pa_subst),
-        'thorough_rules': both(hd.rule_hd_update, conf.rule_pa_excl, ow.rule_ow_fresh),
+        'thorough_rules': both(hd.rule_hd_update, conf.rule_pa_excl, ow.rule_ow_fresh) + one(xp.rule_rx_xp),
         'explanation': 'Decides the UPDATE programs (4 configurations per port): up_fields is a fresh copy of record_a made each iteration before assignments and write; variables are bound from the original record before any assignment (so right-hand sides see original values); exactly one writer.write(up_fields) per input record on every normal path, not control-dependent on WHERE; NU += 1 under the same guard immediately before the assignments; generated assignments are safe_set(up_fields, index, value) whose out-of-range store raises the bad-field error that the per-record handler reports with the record number. Literal-free matching and literal substitution as for C01.',
         'not_decided': 'splitting of an arbitrary assignment list by the assignment regex (a statement about all strings).',
     },
     'C06': {
         'rules': OW_ALL + both(sk.rule_sk_copy),
         'thorough_rules': both(sk.rule_sk_upd, hd.rule_hd_startwin, hd.rule_hd_except) + one(ifc.rule_if_conf),
-        'explanation': 'Decides non-destructiveness as an ownership property: an interprocedural value-origin analysis over the library modules and all composed skeletons shows that no in-place modification site can receive a source object (result of get_record()/get_header() or a declared input parameter), that every record handed to a writer is freshly allocated (so output never aliases input and writers that normalise in place are safe), and that headers reaching a header-modifying set_header are not the caller\'s; files are opened for writing only through output_path; no destructive file-system call; sqlite only ever receives SELECT with identifiers validated by an anchored pattern whose language is within [A-Za-z0-9_]* (regex inclusion by automata); the dataframe is accessed through a read-only API and rows leave as fresh lists. The sqlite connection is the caller\'s: the adapter only creates cursors on it (no commit/rollback/close, no `with connection:`). The code generator embeds the stored select fragment verbatim.',
+        'explanation': 'Decides non-destructiveness as an ownership property: an interprocedural value-origin analysis over the library modules and all composed skeletons shows that no in-place modification site can receive a source object (result of get_record()/get_header() or a declared input parameter), that every record handed to a writer is freshly allocated (so output never aliases input and writers that normalise in place are safe), and that headers reaching a header-modifying set_header are not the caller\'s; files are opened for writing only through output_path; no destructive file-system call; sqlite only ever receives SELECT with identifiers validated by an anchored pattern whose language is within [A-Za-z0-9_]* (regex inclusion by automata); the dataframe is accessed through a read-only API and rows leave as fresh lists. The sqlite connection is the caller\'s: the adapter only creates cursors on it (no commit/rollback/close, no `with connection:`). The code generator embeds the stored select fragment verbatim. select_except allocates every list it returns (no fast path may hand the record back).',
         'not_decided': 'effects of user expressions themselves (assumed not to mutate; cells are immutable strings).',
     },
     'C07': {
@@ -118,21 +118,21 @@ PROPS = {
         'not_decided': 'the exact language of Python/JS string literals accepted by the literal regex.',
     },
     'C09': {
-        'rules': VA_ALL + both(rd.rule_rd_hdrflag, rd.rule_rd_replay, conf.rule_pa_with, sk.rule_sk_nr, pa.rule_pa_withcase, pa.rule_pa_subst) + one(ifc.rule_if_joinopts),
+        'rules': VA_ALL + both(rd.rule_rd_hdrflag, rd.rule_rd_replay, conf.rule_pa_with, sk.rule_sk_nr, pa.rule_pa_withcase, pa.rule_pa_subst, ifc.rule_if_varmap) + one(ifc.rule_if_joinopts),
         'thorough_rules': both(sk.rule_sk_eof, sk.rule_sk_vars) + one(xp.rule_rx_xp),
-        'explanation': 'Decides variable binding structure: name -> index maps are built from header positions, a.name / a["name"] / direct names store that position, the escape function doubles backslashes first and covers quote/LF/CR with the same quote character as the generated key text, the candidate filter only searches for segments the escape leaves unchanged; header line replay flag is always the negation of has_header, WITH (header/noheader) reaches both iterators before their variable maps are built; NR is counted by the engine loop. Column names are substituted into generated text only through literal (non template-interpreting) operations. Join tables are read with the same reading options (delimiter, policy, encoding, header flag, comment prefix) as the input table.',
+        'explanation': 'Decides variable binding structure: name -> index maps are built from header positions, a.name / a["name"] / direct names store that position, the escape function doubles backslashes first and covers quote/LF/CR with the same quote character as the generated key text, the candidate filter only searches for segments the escape leaves unchanged; header line replay flag is always the negation of has_header, WITH (header/noheader) reaches both iterators before their variable maps are built; NR is counted by the engine loop. Column names are substituted into generated text only through literal (non template-interpreting) operations. Join tables are read with the same reading options (delimiter, policy, encoding, header flag, comment prefix) as the input table. Every iterator registers the name-based variables on every path on which column names are present, whatever else holds (IF-VARMAP).',
         'not_decided': 'completeness of the candidate filter for spellings of a name other than the canonical escaped one.',
     },
     'C10': {
-        'rules': both(cs.rule_cs_trigger, cs.rule_cs_dispatch, cs.rule_cs_width, cs.rule_cs_writer, cs.rule_rx_field, rs.rule_fl_flags, rs.rule_fl_none_complete, rd.rule_rd_bom) + one(rd.rule_rd_jschunk) + both(cs.rule_rx_ws),
+        'rules': both(cs.rule_cs_trigger, cs.rule_cs_dispatch, cs.rule_cs_width, cs.rule_cs_writer, cs.rule_rx_field, rs.rule_fl_flags, rs.rule_fl_none_complete, rd.rule_rd_bom) + one(rd.rule_rd_jschunk) + both(cs.rule_rx_ws, cs.rule_cs_reader),
         'thorough_rules': both(cs.rule_cs_accept, cs.rule_cs_extws, cs.rule_rx_newline) + one(xp.rule_rx_xp),
-        'explanation': 'Decides necessary conditions of the round trip (stated as such): the characters that trigger quoting include every character the reader treats specially under the same policy, inner quotes are doubled (globally) and the field enclosed, reader/writer dispatch tables are total over the five policies and pair matching split/join, delimiter comparisons and position steps use the delimiter length, one separator per record, and lossy output (None, delimiter in simple output) always sets its warning flag which get_warnings reports. On every path of CSVWriter.write() that writes a record line while the separator check is switched on, the check ran.',
+        'explanation': 'Decides necessary conditions of the round trip (stated as such): the characters that trigger quoting include every character the reader treats specially under the same policy, inner quotes are doubled (globally) and the field enclosed, reader/writer dispatch tables are total over the five policies and pair matching split/join, delimiter comparisons and position steps use the delimiter length, one separator per record, and lossy output (None, delimiter in simple output) always sets its warning flag which get_warnings reports. On every path of CSVWriter.write() that writes a record line while the separator check is switched on, the check ran. The CSV reader\'s records come from smart_split(line, own delimiter, own policy) and no part of the CSV layer splits on generic whitespace.',
         'not_decided': 'equality of the table read back for any table (a round-trip statement over all strings); encoding behaviour of io.TextIOWrapper.',
     },
     'C11': {
         'rules': CS_ALL,
         'thorough_rules': one(xp.rule_rx_xp),
-        'explanation': 'Decides the dialect pieces exactly where they are regular or structural: the quoted-field regex denotes exactly "([^"]|"")*" (DFA equivalence), greedy, group 1 = content; acceptance iff end of line or delimiter follows, otherwise the field runs to the next delimiter with the warning set; unquoted fields warn iff they contain a quote; external spaces iff delimiter is not a space; trailing delimiter -> final empty field; fast path only without quotes; whitespace regexes; policy dispatch; warning accumulation by OR. An unquoted field is delimited by the next delimiter searched from the field start.',
+        'explanation': 'Decides the dialect pieces exactly where they are regular or structural: the quoted-field regex denotes exactly "([^"]|"")*" (DFA equivalence), greedy, group 1 = content; acceptance iff end of line or delimiter follows, otherwise the field runs to the next delimiter with the warning set; unquoted fields warn iff they contain a quote; external spaces iff delimiter is not a space; trailing delimiter -> final empty field; fast path only without quotes; whitespace regexes; policy dispatch; warning accumulation by OR. An unquoted field is delimited by the next delimiter searched from the field start. The reader dispatch table is obtained by evaluating smart_split per policy name (if chains, switch, membership tests alike); the CSV reader splits with smart_split only.',
         'not_decided': 'conformance of the composed splitter on every line (a transducer-equivalence argument outside this family).',
     },
     'C12': {
@@ -142,21 +142,21 @@ PROPS = {
         'not_decided': 'equality of results over all partitions (a statement about schedules x strings).',
     },
     'C13': {
-        'rules': IF_ALL + one(ow.rule_ow_pandas),
+        'rules': IF_ALL + one(ow.rule_ow_pandas) + py(rd.rule_rd_comment),
         'thorough_rules': both(conf.rule_rs_proto) + py(cs.rule_cs_dispatch),
-        'explanation': 'Decides that the engine cannot tell adapters apart and the CLI channel discipline: the engine imports no adapter and never inspects an adapter type; every adapter implements the interface with the engine\'s arity and hands the engine lists; every entry point delegates the unchanged query to rbql_engine.query; on the non-interactive path nothing but --version prints to stdout, errors are `Error [type]: msg` and warnings `Warning: msg` on stderr, every failure ends in sys.exit(1), success falls off main; error type map and out-format/default-policy tables. An option to which the CLI assigns a falsy legal value is tested by presence only; every registry returns an iterator constructed by that call; the runner maps any exception to show_error + False and success to True (path summaries, helper followed); the CSV header is emitted on every path.',
+        'explanation': 'Decides that the engine cannot tell adapters apart and the CLI channel discipline: the engine imports no adapter and never inspects an adapter type; every adapter implements the interface with the engine\'s arity and hands the engine lists; every entry point delegates the unchanged query to rbql_engine.query; on the non-interactive path nothing but --version prints to stdout, errors are `Error [type]: msg` and warnings `Warning: msg` on stderr, every failure ends in sys.exit(1), success falls off main; error type map and out-format/default-policy tables. An option to which the CLI assigns a falsy legal value is tested by presence only; every registry returns an iterator constructed by that call; the runner maps any exception to show_error + False and success to True (path summaries, helper followed); the CSV header is emitted on every path. Every iterator\'s get_variables_map registers positional variables always and name-based ones whenever column names are present and on nothing else (an empty table, a record count), so a query binds the same way through every front end; comment-prefix handling of the CSV reader (empty prefix = none).',
         'not_decided': 'equality of results across back-ends (depends on pandas/sqlite value conversion).',
     },
     'C14': {
-        'rules': both(sk.rule_sk_err, sk.rule_sk_nr, conf.rule_pa_hdrcall, conf.rule_pa_excl, hd.rule_va_index, rd.rule_rd_bom, agfold.rule_ag_fold) + one(agfold.rule_ag_parse) + FL_ALL + one(rs.rule_rs_decerr, ifc.rule_cl_exit),
+        'rules': both(sk.rule_sk_err, sk.rule_sk_nr, conf.rule_pa_hdrcall, conf.rule_pa_excl, hd.rule_va_index, rd.rule_rd_bom, agfold.rule_ag_fold) + one(agfold.rule_ag_parse) + FL_ALL + one(rs.rule_rs_decerr, ifc.rule_cl_exit) + js(rd.rule_rd_decode) + both(rd.rule_rd_comment),
         'thorough_rules': both(sk.rule_sk_eof, rd.rule_rd_bom, cs.rule_cs_accept, ag.rule_ag_const),
-        'explanation': 'Decides error/warning structure: one try covers every user fragment in every generated program; handlers never fall through (first offending record ends the query); bad field -> runtime error with index+1 and NR, bad key with the key and NR, parsing errors re-raised unchanged, anything else -> runtime error with NR; text-detectable conflicts raise the parsing class before the header is handed over and nothing can raise after it; decode faults map to the IO class; each warning flag has one neutral initialisation, set-sites only under its condition and one guarding read in get_warnings; field-count warning records the first record per count and cites the two smallest. Non-numeric aggregate arguments raise at their record: parse_number never returns an untested value.',
+        'explanation': 'Decides error/warning structure: one try covers every user fragment in every generated program; handlers never fall through (first offending record ends the query); bad field -> runtime error with index+1 and NR, bad key with the key and NR, parsing errors re-raised unchanged, anything else -> runtime error with NR; text-detectable conflicts raise the parsing class before the header is handed over and nothing can raise after it; decode faults map to the IO class; each warning flag has one neutral initialisation, set-sites only under its condition and one guarding read in get_warnings; field-count warning records the first record per count and cites the two smallest. Non-numeric aggregate arguments raise at their record: parse_number never returns an untested value. Comment lines never reach the record counter; JS bulk decoding through a streaming decoder must be flushed in the same function.',
         'not_decided': '"iff the condition occurred" for conditions defined over string contents (e.g. exactness of the delimiter-count heuristic).',
     },
     'C15': {
-        'rules': RS_ALL + py(wr.rule_wr_ret, wr.rule_wr_prop, wr.rule_wr_fin, sk.rule_sk_stop, sk.rule_sk_unnest_pos, conf.rule_rs_proto, conf.rule_pa_hdrcall),
+        'rules': RS_ALL + py(wr.rule_wr_ret, wr.rule_wr_prop, wr.rule_wr_fin, sk.rule_sk_stop, sk.rule_sk_relay, sk.rule_sk_unnest_pos, conf.rule_rs_proto, conf.rule_pa_hdrcall),
         'thorough_rules': py(rs.rule_fl_flags, rd.rule_rd_decode) + both(sk.rule_sk_err),
-        'explanation': 'Decides fault handling structure (Python): the broken-pipe handler covers every stream write, sets the flag and returns False, finish() is a no-op afterwards; the False propagates through every chain writer to stop_flag and the loops; every stream.read is reachable only through the try that maps UnicodeDecodeError to the IO error; every open() in the CSV/sqlite front-ends is closed on all paths (with / flag-coupled try-finally / object closed in the creator\'s finally); protocol: parser calls only set_header (once, unwrapped, first), the run only write, query() calls finish exactly once after a successful run, not in a finally. In the broken-pipe handlers a re-raise is possible only under a test that is false when the caught class is BrokenPipeError itself; no path that leaves a chain writer\'s finish() exceptionally has finished the sink.',
+        'explanation': 'Decides fault handling structure (Python): the broken-pipe handler covers every stream write, sets the flag and returns False, finish() is a no-op afterwards; the False propagates through every chain writer to stop_flag and the loops; every stream.read is reachable only through the try that maps UnicodeDecodeError to the IO error; every open() in the CSV/sqlite front-ends is closed on all paths (with / flag-coupled try-finally / object closed in the creator\'s finally); protocol: parser calls only set_header (once, unwrapped, first), the run only write, query() calls finish exactly once after a successful run, not in a finally. In the broken-pipe handlers a re-raise is possible only under a test that is false when the caught class is BrokenPipeError itself; no path that leaves a chain writer\'s finish() exceptionally has finished the sink. File handles: opened into a local and flagged at once inside try/finally, or stored on the object before anything that can raise runs.',
         'not_decided': 'OS-level behaviour of pipes and the text wrapper\'s flushing.',
     },
     'C16': {
@@ -172,7 +172,7 @@ PROPS = {
         'not_decided': 'nothing further for single-line texts once re.escape / RegExp semantics are trusted (`.` and `$` treat LF specially - outside the quantifier).',
     },
     'C18': {
-        'rules': XP_ALL + both(cs.rule_rx_field, cs.rule_rx_ws, cs.rule_rx_newline, cs.rule_cs_trigger, cs.rule_cs_accept, cs.rule_cs_width, cs.rule_cs_extws, cs.rule_cs_dispatch, hd.rule_hd_table, rd.rule_rd_bom) + one(rd.rule_rd_jschunk) + both(conf.rule_hd_countpos) + js(ow.rule_ow_mut),
+        'rules': XP_ALL + both(cs.rule_rx_field, cs.rule_rx_ws, cs.rule_rx_newline, cs.rule_cs_trigger, cs.rule_cs_accept, cs.rule_cs_width, cs.rule_cs_extws, cs.rule_cs_dispatch, cs.rule_cs_reader, hd.rule_hd_table, rd.rule_rd_bom) + one(rd.rule_rd_jschunk) + both(conf.rule_hd_countpos) + js(ow.rule_ow_mut),
         'thorough_rules': both(rd.rule_rd_bom, rd.rule_rd_comment, rd.rule_rd_rfc, rs.rule_fl_flags, rs.rule_fl_fields, cs.rule_rx_newline, cs.rule_rx_ws),
         'explanation': 'Decides agreement of canonical facts extracted independently from each port: 27 paired regexes language-equal (or allow-listed with reason), both quoted-field regexes equal to the reference language, same quote trigger sets, same acceptance rule and delimiter-width handling, same policy dispatch, same statement keywords and groups (FROM only in Python), same reader warning and IO error message templates, same header naming decision table; both ports are held to the same rule for BOM/comment/RFC handling.',
         'not_decided': 'header inference on arbitrary select lists (python ast vs JS text spans are different algorithms); behavioural equality of the two reader architectures.',
